@@ -219,6 +219,51 @@ func (m *LexModel) consume(st *State, in ssa.Instruction, consumedName string, e
 		e.KV["unsafe"] = "the input is not known to have a rune left here (end-of-input state: '" + st.Mon["end"] + "')"
 	}
 	// newline accounting
+	// a rune consumed earlier whose newline status was left to later tests must be settled before the next rune goes
+	if d := st.Mon["deferred"]; d != "" && d != "resolved" {
+		if v, ok := m.exact(st, []string{d}); ok && v == '\n' {
+			e.KV["uncounted"] = "a consumed newline is not counted before the next rune is consumed"
+		} else if !ok && m.consistent(st, []string{d}, '\n') {
+			e.KV["uncounted"] = "a rune that may be a newline is consumed without the line counter being advanced for it"
+		}
+		delete(st.Mon, "deferred")
+	} else if d == "resolved" {
+		delete(st.Mon, "deferred")
+	}
+	deferTo := ""
+	// closing-pair knowledge for the extent rules: may the previously consumed rune be X while this one is Y?
+	h1 := st.Mon["h1"]
+	histMay := func(h string, v int64) bool {
+		switch {
+		case h == "":
+			return false
+		case strings.HasPrefix(h, "="):
+			x, _ := strconv.ParseInt(h[1:], 10, 64)
+			return x == v
+		default:
+			return m.consistent(st, []string{h}, v)
+		}
+	}
+	curMay := func(v int64) bool {
+		if exact != nil {
+			return *exact == v
+		}
+		return m.consistent(st, cur, v)
+	}
+	h1adv, _ := strconv.Atoi(st.Mon["h1adv"])
+	h2adv, _ := strconv.Atoi(st.Mon["h2adv"])
+	_ = curMay
+	// what the path knows *now* (after every test made since) about the runes consumed before this one
+	e.KV["h1adv"] = st.Mon["h1adv"]
+	if histMay(h1, '\n') {
+		e.KV["prevnl"] = "T"
+	}
+	if histMay(h1, '"') && h1adv >= 2 {
+		e.KV["prevquote"] = "T"
+	}
+	if histMay(st.Mon["h2"], '*') && h2adv >= 3 && histMay(h1, '/') {
+		e.KV["prevpair"] = "T"
+	}
 	var val int64
 	known := false
 	if exact != nil {
@@ -242,8 +287,9 @@ func (m *LexModel) consume(st *State, in ssa.Instruction, consumedName string, e
 		}
 	default:
 		if m.consistent(st, cur, '\n') {
-			if consumedName != "" && st.Mon["deferred"] == "" {
-				st.Mon["deferred"] = consumedName
+			if consumedName != "" {
+				// the caller holds the consumed rune and may still test it (c := advance(); if c == '\n' { line++ })
+				deferTo = consumedName
 				e.KV["newline"] = "deferred"
 			} else {
 				e.KV["newline"] = "maybe"
@@ -323,6 +369,23 @@ func (m *LexModel) consume(st *State, in ssa.Instruction, consumedName string, e
 		}
 		st.Mon["a:"+consumedName] = "consumed"
 	}
+	if deferTo != "" {
+		st.Mon["deferred"] = deferTo
+	}
+	if consumedName != "" && st.Mon["adv"] == "0" && st.Mon["firstname"] == "" {
+		st.Mon["firstname"] = consumedName
+	}
+	// history of the last two consumed runes (exact value or the name that carries their facts)
+	st.Mon["h2"], st.Mon["h2adv"] = st.Mon["h1"], st.Mon["h1adv"]
+	switch {
+	case known:
+		st.Mon["h1"] = "=" + strconv.FormatInt(val, 10)
+	case consumedName != "":
+		st.Mon["h1"] = consumedName
+	default:
+		st.Mon["h1"] = "?"
+	}
+	st.Mon["h1adv"] = bump(st.Mon["adv"], 4)
 	// shift: cur aliases die, next aliases become cur
 	for _, n := range cur {
 		delete(st.Mon, "a:"+n)
@@ -335,7 +398,7 @@ func (m *LexModel) consume(st *State, in ssa.Instruction, consumedName string, e
 	}
 	// only the most recently consumed rune keeps its facts
 	for k, v := range st.Mon {
-		if strings.HasPrefix(k, "a:") && v == "consumed" && k[2:] != consumedName && k[2:] != st.Mon["deferred"] {
+		if strings.HasPrefix(k, "a:") && v == "consumed" && k[2:] != consumedName && k[2:] != st.Mon["deferred"] && k[2:] != st.Mon["firstname"] && k[2:] != st.Mon["h1"] && k[2:] != st.Mon["h2"] {
 			delete(st.Mon, k)
 			for fk := range st.Facts {
 				if strings.Contains(fk, k[2:]) {
@@ -352,9 +415,47 @@ func (m *LexModel) consume(st *State, in ssa.Instruction, consumedName string, e
 	if st.Mon["end"] == "" {
 		delete(st.Mon, "end")
 	}
-	st.Mon["adv"] = bump(st.Mon["adv"], 2)
+	st.Mon["adv"] = bump(st.Mon["adv"], 4)
 	e.KV["adv"] = st.Mon["adv"]
 	m.Emit(st, e)
+}
+
+var histRoles = []string{"h1", "h2", "deferred", "firstname"}
+
+func (m *LexModel) canonicalize(st *State, name string) {
+	used := map[string]bool{}
+	needs := false
+	for _, r := range histRoles {
+		used[st.Mon[r]] = true
+		if st.Mon[r] == name {
+			needs = true
+		}
+	}
+	if !needs {
+		return
+	}
+	k := ""
+	for i := 0; i < 6 && k == ""; i++ {
+		if c := fmt.Sprintf("K%d~", i); !used[c] {
+			k = c
+		}
+	}
+	for fk := range st.Facts {
+		if strings.Contains(fk, k) {
+			delete(st.Facts, fk)
+		}
+	}
+	for fk, f := range st.Facts {
+		if strings.Contains(fk, name) {
+			st.Facts[strings.ReplaceAll(fk, name, k)] = f
+		}
+	}
+	for _, r := range histRoles {
+		if st.Mon[r] == name {
+			st.Mon[r] = k
+		}
+	}
+	st.Mon["a:"+k] = "consumed"
 }
 
 func (m *LexModel) Call(mc *Machine, st *State, call ssa.CallInstruction, callee *ssa.Function, args []AV) ([]Outcome, bool) {
@@ -464,6 +565,9 @@ func (m *LexModel) Call(mc *Machine, st *State, call ssa.CallInstruction, callee
 				return []Outcome{}, true
 			}
 		}
+		// the machine forgets every fact about a site-based name when its site is executed again (loop iteration);
+		// knowledge about earlier runes consumed at this very site moves to a canonical name first
+		m.canonicalize(st, name)
 		return []Outcome{{Result: Sym(name), Apply: func(s *State) {
 			m.consume(s, in, name, nil, "advance")
 		}}}, true
@@ -623,6 +727,9 @@ func (m *LexModel) Instr(mc *Machine, st *State, in ssa.Instruction, ops []AV) {
 		case "start":
 			e := m.ev(in, "mark", []string{val.String()}, "")
 			st.Mon["adv"] = "0"
+			for _, k := range []string{"firstname", "firstknown", "h1", "h2", "h1adv", "h2adv"} {
+				delete(st.Mon, k)
+			}
 			delete(st.Heap, "s.start")
 			m.Emit(st, e)
 		case "current":
@@ -648,7 +755,7 @@ func (m *LexModel) Instr(mc *Machine, st *State, in ssa.Instruction, ops []AV) {
 }
 
 func (m *LexModel) Branch(mc *Machine, st *State, in *ssa.If, cond AV, taken bool) {
-	if d := st.Mon["deferred"]; d != "" && d != "resolved" && st.Mon["firstknown"] == "" {
+	if d := st.Mon["firstname"]; d != "" && st.Mon["firstknown"] == "" {
 		if v, ok := m.exact(st, []string{d}); ok {
 			st.Mon["firstknown"] = "T"
 			m.Emit(st, m.ev(in, "first", []string{strconv.QuoteRune(rune(v))}, ""))
@@ -677,18 +784,46 @@ func (m *LexModel) Return(mc *Machine, st *State, ret *ssa.Return, results []AV)
 	e.KV["adv"] = st.Mon["adv"]
 	if d := st.Mon["deferred"]; d != "" && d != "resolved" {
 		if v, ok := m.exact(st, []string{d}); ok {
-			e.KV["first"] = strconv.QuoteRune(rune(v))
 			if v == '\n' {
 				e.KV["deferred"] = "newline-not-counted"
 			}
 		} else if m.consistent(st, []string{d}, '\n') {
 			e.KV["deferred"] = "maybe-newline"
+		}
+	}
+	if d := st.Mon["firstname"]; d != "" {
+		if v, ok := m.exact(st, []string{d}); ok {
+			e.KV["first"] = strconv.QuoteRune(rune(v))
+		} else if m.consistent(st, []string{d}, '\n') {
 			e.KV["first"] = "?"
 		} else {
 			e.KV["first"] = "other"
 		}
-	} else if d == "resolved" {
-		e.KV["first"] = `'\n'`
+	}
+	// what the path knows about the last two consumed runes and about the rune under the cursor (extent rules)
+	histSet := func(h string) string {
+		switch {
+		case h == "" || h == "?":
+			return h
+		case strings.HasPrefix(h, "="):
+			x, _ := strconv.ParseInt(h[1:], 10, 64)
+			return ivlString([]ivl{{x, x}})
+		}
+		set, approx := m.solve(st, []string{h})
+		if approx {
+			return ivlString(set) + " (approx)"
+		}
+		return ivlString(set)
+	}
+	e.KV["last1"], e.KV["last2"] = histSet(st.Mon["h1"]), histSet(st.Mon["h2"])
+	e.KV["last1adv"], e.KV["last2adv"] = st.Mon["h1adv"], st.Mon["h2adv"]
+	e.KV["end"] = st.Mon["end"]
+	if st.Mon["end"] != "T" {
+		set, approx := m.solve(st, m.aliases(st, "cur"))
+		e.KV["cur"] = ivlString(set)
+		if approx {
+			e.KV["cur"] += " (approx)"
+		}
 	}
 	m.Emit(st, e)
 }
